@@ -554,7 +554,11 @@ fn check_break(out: &mut CaseOutcome, drv: &mut Driver, c: &Common, orig: &[ds::
         base.push_str(&b.to_string());
     }
     // --- M ---
-    let model = drv.ask(&format!("plb {base}"));
+    let mut model = drv.ask(&format!("plb {base}"));
+    if let Some(rest) = model.strip_prefix("ok! ") {
+        out.fail(Kind::ModelVsSpec, "model", "the specification rejects the model's own lines", format!("model lines: {rest}"));
+        model = format!("ok {rest}");
+    }
     match &rb.lines {
         Err(p) => {
             let cls = panic_class(p);
@@ -567,7 +571,15 @@ fn check_break(out: &mut CaseOutcome, drv: &mut Driver, c: &Common, orig: &[ds::
                 out.fail(Kind::ImplVsModel, "panic", "real panic, model returns lines", format!("real panic: {p}"));
             }
             if dom {
-                out.fail(Kind::ImplPanic, "break_line", format!("panic {}", strip_msg(p)), format!("break_line panicked on an in-domain list: {p}; breaks {:?}", rb.bps));
+                // is the break sequence the breaker chose valid at all? (`spec` with no lines)
+                let verdict = drv.ask(&format!("spec {base} 0"));
+                let sig = if verdict.ends_with(" invalid") && cls == 1 {
+                    out.tag("breaks:invalid");
+                    "panic: line broken inside the replacement list of the discretionary that ended the previous line".to_string()
+                } else {
+                    format!("panic {}", strip_msg(p))
+                };
+                out.fail(Kind::ImplPanic, "break_line", sig, format!("break_line panicked on an in-domain list: {p}; breaks {:?}", rb.bps));
             }
             return;
         }
@@ -1206,6 +1218,34 @@ impl C12 {
             Ok(rb) => {
                 if tc.hyph && rb.list_after.len() != list.len() + 2 - matches!(list.last(), Some(ds::Horizontal::Glue(_))) as usize {
                     out.tag("text:hyphenated");
+                }
+                // the list that was actually broken (paragraph end appended, possibly hyphenated:
+                // discretionaries inserted, ligatures rebuilt) still spells the words
+                let mut req = String::new();
+                let mut n_items = 0;
+                for h in &rb.list_after {
+                    match h {
+                        ds::Horizontal::Glue(_) => {
+                            req.push_str(" 0");
+                            n_items += 1;
+                        }
+                        ds::Horizontal::Char(_) | ds::Horizontal::Ligature(_) => {
+                            let cs = match h {
+                                ds::Horizontal::Char(c) => c.char.to_string(),
+                                ds::Horizontal::Ligature(l) => l.original_chars.to_string(),
+                                _ => unreachable!(),
+                            };
+                            req.push_str(&format!(" 1 {}", cs.chars().count()));
+                            for ch in cs.chars() {
+                                req.push_str(&format!(" {}", ch as u32));
+                            }
+                            n_items += 1;
+                        }
+                        _ => {}
+                    }
+                }
+                if drv.ask(&format!("spl {n_items}{req}{wreq}")) != "1" {
+                    out.fail(Kind::ImplVsSpec, "spell", "the broken (hyphenated) list does not spell the words", format!("text {:?}", text));
                 }
                 check_break(&mut out, drv, &tc.c, &list, &rb, tc.hyph);
             }
